@@ -560,6 +560,7 @@ def reset_in_same_round(ctx, rng, which):
 
 def run(ctx):
     rng = ctx.rng
+    tg.set_verbosity_seed(ctx.seed)
     directed(ctx)
     dgram_faults(ctx)
     accept_faults(ctx)
@@ -622,6 +623,9 @@ def replay(ctx, rep):
         return tg.replay_work(case)
     s, wrote = tg.replay_script(case)
     try:
+        common_verdict = tg.replay_common(s)
+        if common_verdict:
+            return common_verdict
         t = s.t
         if t.died:
             return True, 'process died: %s' % t.died
